@@ -775,6 +775,51 @@ func (x *Exec) trCall(e *Expr, env *Env) (Term, error) {
 				return Term{S: app("go_abs", args[0].S), Sort: SInt, T: args[0].T}, nil
 			}
 			return Term{S: app("go_"+callee.Name, args[0].S, args[1].S), Sort: SInt, T: args[0].T}, nil
+		case "errorsAs", "errorsAsVal":
+			if len(argsE) != 2 {
+				return Term{}, fmt.Errorf("%s(err, Type)", callee.Name)
+			}
+			v, err := x.tr(argsE[0], env)
+			if err != nil {
+				return Term{}, err
+			}
+			te := exprToType(argsE[1])
+			if te == nil {
+				return Term{}, fmt.Errorf("%s: second argument must be a type", callee.Name)
+			}
+			t, err := x.prog.resolveType(te, env.pkg)
+			if err != nil {
+				return Term{}, err
+			}
+			ok, val := x.errorsAsTerms(v, t)
+			if callee.Name == "errorsAs" {
+				return tBool(ok), nil
+			}
+			return val, nil
+		case "hasPrefix", "hasSuffix":
+			args, err := trArgs()
+			if err != nil {
+				return Term{}, err
+			}
+			if len(args) != 2 || args[0].Sort != SStr || args[1].Sort != SStr {
+				return Term{}, fmt.Errorf("%s(s, p) needs two strings", callee.Name)
+			}
+			f := "uf_HasPrefix"
+			if callee.Name == "hasSuffix" {
+				f = "uf_HasSuffix"
+			}
+			x.vc.declFun(f, []string{SStr, SStr}, SBool)
+			return tBool(app(f, args[0].S, args[1].S)), nil
+		case "errorsIs":
+			args, err := trArgs()
+			if err != nil {
+				return Term{}, err
+			}
+			if len(args) != 2 {
+				return Term{}, fmt.Errorf("errorsIs(err, target)")
+			}
+			x.vc.declFun("uf_errors_Is", []string{SIface, SIface}, SBool)
+			return tBool(app("uf_errors_Is", args[0].S, args[1].S)), nil
 		case "dyn":
 			// dyn(iface, T): the dynamic type of the interface value is T
 			if len(argsE) != 2 {
